@@ -543,6 +543,10 @@ func registerL1Intrinsics() {
 		}
 		return in.mkSlice(vs)
 	}
+	for _, n := range []string{"PoisonFiles", "PoisonInfo", "PoisonFset"} {
+		name := n
+		intrinsics[ndPkg+"."+name] = func(in *Interp, fn *ssa.Function, a []Value) Value { return poison("nd." + name) }
+	}
 	intrinsics[ndPkg+".LineOf"] = func(in *Interp, fn *ssa.Function, a []Value) Value {
 		src, needle := a[0].(*Str), a[1].(*Str)
 		if src.kind != sConc || needle.kind != sConc {
